@@ -291,6 +291,20 @@ Proof.
   - intros j N. destruct (alive (cs s j)); cproj; congruence.
 Qed.
 
+Lemma step_close : forall s id s', CInv s -> cstep c s (LClose id) = Some s' -> CInv s'.
+Proof.
+  intros s id s' I H. cbn in H. destruct (negb (held (cs s id)) || closed (cs s id)) eqn:G; [discriminate|]. inversion H; subst; clear H.
+  destruct I. constructor; cproj.
+  - intros j L. pose proof (c_cons0 j L) as E. fsplit j id; [|exact E]. destruct (q (cs s id)); cproj; [|exact E].
+    rewrite qitems_app. cbn [qitems flat_map]. rewrite app_nil_r. exact E.
+  - intros j. fsplit j id; [|auto]. pose proof (c_shape0 id) as Sh. destruct (q (cs s id)); cproj; [apply shaped_end; exact Sh|exact shaped_nil].
+  - intros j Aj. fsplit j id; [discriminate|auto].
+  - intros j l R Qj. fsplit j id; [|eauto]. destruct (q (cs s id)); cproj; [|discriminate]. inversion Qj; subst. rewrite qends_app. cbn. lia.
+  - intros j. fsplit j id; [|auto]. pose proof (c_ends0 id) as E. unfold fires. destruct (cb (cs s id)) as [[|]|]; lia.
+  - intros j. fsplit j id; auto.
+  - intros j N. fsplit j id; [congruence|auto].
+Qed.
+
 Theorem cstep_inv : forall s l s', CInv s -> cstep c s l = Some s' -> CInv s'.
 Proof.
   intros s l s' I H. destruct l.
@@ -303,6 +317,7 @@ Proof.
   - eapply step_reput; eauto.
   - eapply step_setcb; eauto.
   - eapply step_finish; eauto.
+  - eapply step_close; eauto.
 Qed.
 
 Theorem crun_inv : forall ls s, CInv s -> CInv (crun c ls s).
@@ -365,7 +380,7 @@ Lemma registers_only_new_setcb : forall c s l s' id, cstep c s l = Some s' ->
   (alive (cs s id) = false /\ alive (cs s' id) = true -> l = LNew id) /\
   (cb (cs s id) = None /\ cb (cs s' id) <> None -> exists w, l = LSetCb id w).
 Proof.
-  intros c s l s' id H. destruct l as [j x|j k|j|j| |t j|t|j w|]; simpl in H.
+  intros c s l s' id H. destruct l as [j x|j k|j|j| |t j|t|j w| |j]; simpl in H.
   - injection H as <-. simpl. split; intros [A B]; congruence.
   - injection H as <-. simpl. split; intros [A B]; congruence.
   - destruct (_ || _ || _ || _) eqn:G; try discriminate. injection H as <-. simpl. unfold fupd.
@@ -392,4 +407,17 @@ Proof.
     destruct (negb (Nat.eqb (qends lq) 0)); injection H as <-; simpl; unfold fupd; destruct (Nat.eqb id j) eqn:E; simpl; split; intros [A B]; try congruence;
       apply Nat.eqb_eq in E; subst; try congruence; eauto.
   - destruct (fin s); try discriminate. injection H as <-. simpl. unfold local_close. split; intros [A B]; destruct (alive (cs s id)); simpl in *; congruence.
+  - destruct (negb (held (cs s j)) || closed (cs s j)); try discriminate. injection H as <-. simpl. unfold fupd. destruct (Nat.eqb id j) eqn:E; simpl; split; intros [A B]; congruence.
 Qed.
+
+(* C03: a local close() completes the transition to "closed" from the open and from the send-only state alike: the
+   channel reports closed, is unregistered, its queue ends with an ENDMARKER, a registered callback is gone *)
+Lemma close_closes : forall c s id s', cstep c s (LClose id) = Some s' ->
+  closed (cs s' id) = true /\ rclosed (cs s' id) = true /\ alive (cs s' id) = false /\ cb (cs s' id) = None /\
+  (forall l, q (cs s id) = Some l -> q (cs s' id) = Some (l ++ [End])).
+Proof.
+  intros c s id s' H. cbn in H. destruct (negb (held (cs s id)) || closed (cs s id)); [discriminate|]. injection H as <-. cbn. rewrite fupd_eq. cbn.
+  repeat split; auto. intros l Q. rewrite Q. reflexivity.
+Qed.
+Lemma close_enabled : forall c s id, held (cs s id) = true -> closed (cs s id) = false -> exists s', cstep c s (LClose id) = Some s'.
+Proof. intros c s id Hd Cl. cbn. rewrite Hd, Cl. cbn. eauto. Qed.
